@@ -1,6 +1,81 @@
+(* C18 - FCI path searches report a path iff one exists, and only valid paths.  Definitions: C18/Spec.v. *)
 From Coq Require Import List.
-From PG Require Import Graph.MGraph C18.Model.
-(* placeholder until the proofs land *)
-Theorem c18_placeholder : forall g u a c, disc_search g u a c = disc_search g u a c.
-Proof. reflexivity. Qed.
-Print Assumptions c18_placeholder.
+From PG Require Import Graph.MGraph C18.Model C18.Spec C18.Proofs C18.ProofsSound C18.ProofsComplete C18.Refuted.
+Import ListNotations.
+
+(* the boolean edge test is the wording of the property: no arrowhead at the earlier node, no tail at the later
+   one (circle marks only with force_circle) *)
+Theorem c18_pd_edge_words : forall g fc a b, pd_edge g fc a b = true <-> pd_edge_def g fc a b.
+Proof. exact pd_edge_words. Qed.
+Print Assumptions c18_pd_edge_words.
+
+(* the enumerations used to validate every path returned by the implementation are exactly the definitions *)
+Theorem c18_updp_paths_spec : forall g u c o p, In p (updp_paths g u c o) <-> updp_def g u c o p.
+Proof. exact updp_paths_spec. Qed.
+Print Assumptions c18_updp_paths_spec.
+
+Theorem c18_disc_paths_spec : forall g par u a c p, In p (disc_paths g par u a c) <-> disc_def g par u a c p.
+Proof. exact disc_paths_spec. Qed.
+Print Assumptions c18_disc_paths_spec.
+
+(* verified checkers *)
+Theorem c18_updp_valid_b_spec : forall g u c o p, updp_valid_b g u c o p = true <-> updp_def g u c o p.
+Proof. exact updp_valid_b_spec. Qed.
+Print Assumptions c18_updp_valid_b_spec.
+
+Theorem c18_disc_valid_b_spec : forall g par u a c p, disc_valid_b g par u a c p = true <-> disc_def g par u a c p.
+Proof. exact disc_valid_b_spec. Qed.
+Print Assumptions c18_disc_valid_b_spec.
+
+(* the deciders used for "a path exists" reflect existence *)
+Theorem c18_spec_updp_dec_spec : forall g u c o, spec_updp_dec g u c o = true <-> exists p, updp_def g u c o p.
+Proof. exact spec_updp_dec_spec. Qed.
+Print Assumptions c18_spec_updp_dec_spec.
+
+Theorem c18_spec_disc_dec_spec :
+  forall g par u a c, spec_disc_dec g par u a c = true <-> exists p, disc_def g par u a c p.
+Proof. exact spec_disc_dec_spec. Qed.
+Print Assumptions c18_spec_disc_dec_spec.
+
+(* soundness of the search models, unbounded *)
+Theorem c18_updp_sound : forall g u c o p, updp_search g u c o = Found p -> updp_def g u c o p.
+Proof. exact updp_sound. Qed.
+Print Assumptions c18_updp_sound.
+
+Theorem c18_disc_sound : forall g par u a c p, disc_search g par u a c = Some p -> disc_def g par u a c p.
+Proof. exact disc_sound. Qed.
+Print Assumptions c18_disc_sound.
+
+(* completeness of the repaired discriminating_path search, unbounded *)
+Theorem c18_disc_complete : forall g par u a c,
+  (forall w, par w = true -> adjacent g w c = true) ->
+  (exists p, disc_def g par u a c p) -> exists p', disc_search g par u a c = Some p'.
+Proof. exact disc_complete. Qed.
+Print Assumptions c18_disc_complete.
+
+Theorem c18_disc_search_iff : forall g lenient u a c,
+  (exists p, disc_search g (par_of g lenient a c) u a c = Some p) <->
+  spec_disc_dec g (par_of g lenient a c) u a c = true.
+Proof. exact disc_search_iff. Qed.
+Print Assumptions c18_disc_search_iff.
+
+(* the uncovered_pd_path search with one global explored set is NOT complete (recorded known finding) *)
+Theorem c18_updp_complete_refuted :
+  exists g u c o p, updp_def g u c o p /\ updp_search g u c o = NotFound.
+Proof. exact updp_complete_refuted. Qed.
+Print Assumptions c18_updp_complete_refuted.
+
+(* non-vacuity *)
+Theorem c18_updp_search_finds :
+  updp_search g_line 1 4 (MkO (Some 0) None (Some 0) false) = Found [0; 1; 2; 3; 4] /\
+  updp_search g_line 0 4 (MkO None (Some 1) (Some 3) false) = Found [0; 1; 2; 3; 4] /\
+  updp_search g_line 3 4 (MkO None None None true) = Found [3; 4] /\
+  updp_def g_line 1 4 (MkO (Some 0) None (Some 0) false) [0; 1; 2; 3; 4].
+Proof. exact updp_search_finds. Qed.
+Print Assumptions c18_updp_search_finds.
+
+Theorem c18_disc_search_finds :
+  disc_search g_disc (strict g_disc 2 4) 3 2 4 = Some [0; 1; 2; 3; 4] /\
+  disc_def g_disc (strict g_disc 2 4) 3 2 4 [0; 1; 2; 3; 4].
+Proof. exact disc_search_finds. Qed.
+Print Assumptions c18_disc_search_finds.
